@@ -545,15 +545,46 @@ func TestC14Mgr(t *testing.T) {
 			RestartBackoff: time.Duration(r.Intn(3)) * time.Second, MaxConsecutiveRestarts: maxR}
 		peers := gen.Peers(r, 2)
 		self, other := peers[0], peers[1]
+		// in half of the fault-free cases the responder's acceptance is processed while the open call is
+		// still sending the request (a fast transport), and the accept timeout is short: an accepted channel
+		// must not be closed for "no Accept in time"
+		fastAccept := fault == 0 && (c.Index/8)%2 == 1
+		if fastAccept {
+			cfg.AcceptTimeout = time.Duration(1+r.Intn(30)) * time.Second
+		}
 		f := newMgrFix(c, self, nil, withMonitor(cfg))
 		v := gen.Voucher(r, "VT0")
+		if fastAccept {
+			var first sync.Once
+			f.net.SetOnSend(func(p peer.ID, m datatransfer.Message) error {
+				if rq, ok := m.(datatransfer.Request); ok && rq.IsNew() && !pull {
+					first.Do(func() {
+						resp, _ := message.NewResponse(rq.TransferID(), true, false, nil)
+						f.deliverResponse(datatransfer.ChannelID{Initiator: self, Responder: other, ID: rq.TransferID()}, false, resp)
+					})
+				}
+				return nil
+			})
+			f.tp.SetOn(func(tc *doubles.TCall) error {
+				if tc.Op == "open" && pull {
+					first.Do(func() {
+						resp, _ := message.NewResponse(tc.Chid.ID, true, false, nil)
+						f.deliverResponse(tc.Chid, true, resp)
+					})
+				}
+				return nil
+			})
+			c.Count("accept_processed_during_open", 1)
+		}
 		chid, err := f.open(pull, other, v, dummyCid)
 		if err != nil {
 			panic(err)
 		}
 		settle()
-		resp, _ := message.NewResponse(chid.ID, true, false, nil)
-		f.deliverResponse(chid, pull, resp)
+		if !fastAccept {
+			resp, _ := message.NewResponse(chid.ID, true, false, nil)
+			f.deliverResponse(chid, pull, resp)
+		}
 		f.tp.Events().OnTransferInitiated(chid)
 		settle()
 		budget := 0 // failures still to inject (transient mode)
